@@ -15,7 +15,7 @@ from guppylang_internals.cfg.bb import BB
 from guppylang_internals.cfg.builder import CFGBuilder
 from guppylang_internals.checker.cfg_checker import CheckedCFG, check_cfg
 from guppylang_internals.checker.core import Context, Globals, Place, Variable
-from guppylang_internals.checker.errors.generic import UnsupportedError
+from guppylang_internals.checker.errors.generic import ExpectedError, UnsupportedError
 from guppylang_internals.checker.unitary_checker import check_invalid_under_dagger
 from guppylang_internals.definition.common import DefId
 from guppylang_internals.definition.ty import TypeDef
@@ -139,6 +139,9 @@ def check_global_func_def(
     assert all(inp.name is not None for inp in ty.inputs)
 
     check_invalid_under_dagger(func_def, ty.unitary_flags)
+    if not func_def.body and not returns_none:
+        # The body consisted of a docstring only
+        raise GuppyError(ExpectedError(func_def, "return statement"))
     cfg = CFGBuilder().build(func_def.body, returns_none, globals, ty.unitary_flags)
     inputs = [
         Variable(cast(str, inp.name), inp.ty, loc, inp.flags, is_func_input=True)
